@@ -57,6 +57,25 @@ let handle (f : string array) : string =
     let uid = bytes_of_hex f.(3) and msg = bytes_of_hex f.(4) and rho = bytes_of_hex f.(5) in
     show (fun ((r, s), rest) -> "ok " ^ str_of_z r ^ " " ^ str_of_z s ^ " " ^ consumed rho rest)
       (sm2Sign (fuel_for rho) pr msg uid rho)
+  | "C" ->
+    (* concurrent leg: the model predicts every goroutine from its own stream alone - m successive
+       Sm2Sign calls on one reader, each continuing where the previous one stopped *)
+    let d = z_of_str f.(2) in
+    let g = int_of_string f.(3) and m = int_of_string f.(4) in
+    let split s = if s = "-" || s = "" then [] else List.map (fun x -> if x = "." then [] else bytes_of_hex x) (String.split_on_char ',' s) in
+    let streams = Array.of_list (split f.(5)) and msgs = Array.of_list (split f.(6)) in
+    let one j =
+      let pr = key_of d in
+      let rho0 = streams.(j) in
+      let rec go i rho acc =
+        if i = m then Some (List.rev acc, rho)
+        else match sm2Sign (fuel_for rho) pr msgs.(j * m + i) [] rho with
+          | Ok ((r, s), rest) -> go (i + 1) rest ((str_of_z r ^ "." ^ str_of_z s) :: acc)
+          | _ -> None in
+      match go 0 rho0 [] with
+      | Some (l, rest) -> String.concat "," l ^ "/" ^ consumed rho0 rest
+      | None -> "err" in
+    "ok " ^ String.concat " " (List.init g one)
   | "G" ->
     let pr = key_of (z_of_str f.(2)) in
     let msg = bytes_of_hex f.(3) and rho = bytes_of_hex f.(4) in
